@@ -35,7 +35,10 @@ type rawCmd struct {
 	NoWait  bool          // pipelined: do not wait for the tagged reply before sending the next command
 	Hangup  bool          // close the connection instead of sending the last continuation line (e.g. disconnect while idling)
 	Pause   time.Duration // after sending, do not read anything for this long (slow / stalled reader)
-	Poison  []string
+	// StallFor: after the "+" of IDLE, neither read nor write for this long (a stalled idler), then go on
+	// with IdleFor / Hangup / DONE
+	StallFor time.Duration
+	Poison   []string
 }
 
 func textCmd(tag, line string) rawCmd {
@@ -277,6 +280,9 @@ func (p *rawPeer) run(cmds []rawCmd) {
 				break
 			}
 			o.Conts++
+			if ci == len(c.Cont)-1 && c.StallFor > 0 {
+				simrt.Sleep(c.StallFor)
+			}
 			if ci == len(c.Cont)-1 && c.IdleFor > 0 {
 				p.idleRead(c.IdleFor)
 			}
